@@ -806,3 +806,116 @@ def gen_probe(rng, dump, mutation=False):
                          "incl": incl, "desc": desc,
                          "name": rng.choice(names) if rng.random() < 0.85 else "NoSuchType"})
     return {"op": "probe", "mutation": mutation, "sels": sels, "root": root}
+
+
+# --------------------------------------------------------------------------
+# in-place edits of a live Schema object through the public visitor API
+# (SchemaVisitor.on_schema edits the schema it is given; transform_schema()
+# would clone first)
+def apply_edit(schema, edit):
+    from py_gql.schema import SchemaVisitor
+    from py_gql.schema.transforms import VisibilitySchemaTransform
+
+    k = edit["edit"]
+    if k in ("hide_type", "hide_field", "hide_input_field", "hide_directive"):
+        class Hide(VisibilitySchemaTransform):
+            def is_type_visible(self, name):
+                return not (k == "hide_type" and name == edit["name"])
+
+            def is_field_visible(self, typename, fieldname):
+                return not (k == "hide_field" and typename == edit["type"] and fieldname == edit["name"])
+
+            def is_input_field_visible(self, typename, fieldname):
+                return not (k == "hide_input_field" and typename == edit["type"] and fieldname == edit["name"])
+
+            def is_directive_visible(self, name):
+                return not (k == "hide_directive" and name == edit["name"])
+
+        Hide().on_schema(schema)
+    elif k == "hide_enum_value":
+        class HideValue(SchemaVisitor):
+            _cur = None
+
+            def on_enum(self, enum_type):
+                self._cur = enum_type.name
+                return super().on_enum(enum_type)
+
+            def on_enum_value(self, enum_value):
+                if self._cur == edit["type"] and enum_value.name == edit["name"]:
+                    return None
+                return enum_value
+
+        HideValue().on_schema(schema)
+    elif k == "drop_interface":
+        class Drop(SchemaVisitor):
+            def on_object(self, object_type):
+                if object_type.name == edit["type"]:
+                    return ObjectType(
+                        object_type.name, list(object_type.fields),
+                        interfaces=[i for i in object_type.interfaces if i.name != edit["name"]],
+                        default_resolver=object_type.default_resolver,
+                        description=object_type.description, nodes=object_type.nodes)
+                return object_type
+
+        Drop().on_schema(schema)
+    else:
+        raise ValueError(k)
+    return schema
+
+
+def dangling(dump):
+    """names referenced by the dump that are not in its registry (a stale
+    reference left by an in-place edit: not representable by name)"""
+    names = {t["name"] for t in dump["types"]}
+    out = set()
+
+    def ref(t):
+        if _base(t) not in names:
+            out.add(_base(t))
+    for t in dump["types"]:
+        for f in t.get("fields", []):
+            ref(f["type"])
+            for a in f["args"]:
+                ref(a["type"])
+        for iv in t.get("inputs", []):
+            ref(iv["type"])
+        for n in t.get("interfaces", []) + t.get("members", []):
+            if n not in names:
+                out.add(n)
+    for d in dump["directives"]:
+        for a in d["args"]:
+            ref(a["type"])
+    for n in (dump["query"], dump["mutation"], dump["subscription"]):
+        if n is not None and n not in names:
+            out.add(n)
+    return sorted(out)
+
+
+def gen_edit(rng, dump):
+    """one in-place edit applicable to the schema as dumped (or None)"""
+    user = [t for t in dump["types"] if not t["name"].startswith("__") and t["name"] not in BUILTIN]
+    roots = {dump["query"], dump["mutation"], dump["subscription"]}
+    members = sorted({m for t in user if t["kind"] == "UNION" for m in t["members"]}
+                     | {t["name"] for t in user if t["kind"] == "OBJECT" and t["interfaces"]})
+    cands = []
+    for m in members:
+        if m not in roots:
+            cands += [{"edit": "hide_type", "name": m}] * 4          # an interface / union member
+    for t in user:
+        if t["name"] in roots:
+            pass
+        elif t["kind"] in ("ENUM", "INPUT_OBJECT", "SCALAR", "INTERFACE", "UNION", "OBJECT"):
+            cands.append({"edit": "hide_type", "name": t["name"]})
+        if t["kind"] in ("OBJECT", "INTERFACE") and len(t["fields"]) > 1:
+            f = rng.choice(t["fields"])
+            cands.append({"edit": "hide_field", "type": t["name"], "name": f["name"]})
+        if t["kind"] == "INPUT_OBJECT" and len(t["inputs"]) > 1:
+            cands.append({"edit": "hide_input_field", "type": t["name"], "name": rng.choice(t["inputs"])["name"]})
+        if t["kind"] == "ENUM" and len(t["values"]) > 1:
+            cands.append({"edit": "hide_enum_value", "type": t["name"], "name": rng.choice(t["values"])["name"]})
+        if t["kind"] == "OBJECT" and t["interfaces"]:
+            cands += [{"edit": "drop_interface", "type": t["name"], "name": rng.choice(t["interfaces"])}] * 2
+    for d in dump["directives"]:
+        if d["name"] not in ("skip", "include", "deprecated"):
+            cands.append({"edit": "hide_directive", "name": d["name"]})
+    return rng.choice(cands) if cands else None
